@@ -44,6 +44,7 @@ static void c01(const Trace& t, const Analysis& A, Verdict& V) {
 		if (hasSnap(e)) {
 			const uint64_t expectMask = e.mAct == NOID ? 0 : (e.mAct < 64 ? (1ull << e.mAct) : 0);
 			if (e.mActMask != expectMask) V.add(1, i, F("isActive(id) disagrees with activeStateId(): active=%d mask=%llx", sidOf(e.mAct), (unsigned long long) e.mActMask));
+			if (!e.tmplOk) V.add(1, i, "isActive<T>() / stateId<T>() disagree with isActive(id) / the declaration order");
 			if (e.mAct != NOID && e.mAct >= f.N) V.add(1, i, F("activeStateId()=%u out of range", e.mAct));
 			if (f.manual && e.mManual != 2 && e.mManual != (e.mAct != NOID ? 1 : 0)) V.add(1, i, "manual isActive() disagrees with activeStateId()");
 		}
@@ -279,6 +280,7 @@ static void c06(const Trace& t, const Analysis& A, Verdict& V) {
 		const Ann& an = A.ann[i];
 		if (e.sid != e.state) V.add(6, i, F("control.stateId()=%d inside a callback of s%d", sidOf(e.sid), sidOf(e.state)));
 		if (!e.ctxOk) V.add(6, i, "control.context() is not the machine's own context object");
+		if (!e.ctmplOk) V.add(6, i, "control.isActive<T>() disagrees with control.isActive(id)");
 		if (e.cAct != e.mActMask) V.add(6, i, F("control.isActive(id) mask %llx != machine.isActive(id) mask %llx (active=%d)", (unsigned long long) e.cAct, (unsigned long long) e.mActMask, sidOf(e.mAct)));
 		if (f.hasPlans && !(e.planFlags & PF_CTL_EQUAL)) V.add(6, i, "control.plan() shows a different plan than machine.plan()");
 		if (an.outKnown && !f.bare && !(e.req == an.out)) V.add(6, i, F("control.request()=%s but the outstanding request is %s", trStr(e.req).c_str(), trStr(an.out).c_str()));
